@@ -147,6 +147,18 @@ func (s *Solver) declareVarsOf(t *Term) {
 			s.send("(declare-fun go_tolower (String) String)")
 		}
 	}
+	if strings.Contains(t.String(), "go_hash64") {
+		if _, ok := s.declared["go_hash64"]; !ok {
+			s.declared["go_hash64"] = sortStr
+			s.send("(declare-fun go_hash64 (String) (_ BitVec 64))")
+		}
+	}
+	if strings.Contains(t.String(), "go_hashhex") {
+		if _, ok := s.declared["go_hashhex"]; !ok {
+			s.declared["go_hashhex"] = sortStr
+			s.send("(declare-fun go_hashhex (String) String)")
+		}
+	}
 	if strings.Contains(t.String(), "go_ufmatch") {
 		if _, ok := s.declared["go_ufmatch"]; !ok {
 			s.declared["go_ufmatch"] = sortBool
